@@ -261,8 +261,100 @@ impl Space for Adpcm {
     }
 }
 
+/// ADPCM channel interleaving under transients: each channel holds one level and steps to another at its
+/// own frame (a large step makes the coder emit its "step up fast" marker, after which the decoder must
+/// stay on the same channel). After the coder has settled, every channel must sit near ITS OWN target.
+struct AdpcmSteps {
+    cases: Vec<(usize, [i16; 2], usize, [i16; 2], bool)>, // left: (frame, [from,to]); right: (frame, [from,to]); stereo
+}
+impl AdpcmSteps {
+    fn new(tier: Tier) -> AdpcmSteps {
+        let levels: Vec<[i16; 2]> = vec![[0, 20000], [20000, -20000], [-6000, 6000], [3000, 3000], [0, -32000], [-30000, 30000]];
+        let frames: Vec<usize> = tier.pick(vec![1, 40], vec![1, 2, 17, 40, 41, 100]);
+        let mut cases = vec![];
+        for (li, l) in levels.iter().enumerate() {
+            for &lf in &frames {
+                for (ri, r) in levels.iter().enumerate() {
+                    for &rf in &frames {
+                        if (l[0] == l[1] && lf != frames[0]) || (r[0] == r[1] && rf != frames[0]) {
+                            continue; // a constant channel has no step frame
+                        }
+                        let _ = (li, ri);
+                        cases.push((lf, *l, rf, *r, true));
+                    }
+                }
+                cases.push((lf, *l, 0, [0, 0], false)); // the same signal as mono
+            }
+        }
+        AdpcmSteps { cases }
+    }
+}
+impl Space for AdpcmSteps {
+    fn len(&self) -> u64 {
+        self.cases.len() as u64
+    }
+    fn describe(&self, i: u64) -> Value {
+        let c = &self.cases[i as usize];
+        json!({"adpcm_steps": if c.4 { "stereo" } else { "mono" }, "left": format!("{} -> {} at frame {}", c.1[0], c.1[1], c.0), "right": if c.4 { format!("{} -> {} at frame {}", c.3[0], c.3[1], c.2) } else { "-".into() }})
+    }
+    fn run(&self, i: u64) -> CaseResult {
+        const FRAMES: usize = 192;
+        let c = &self.cases[i as usize];
+        let mut r = CaseResult::new();
+        r.key = format!("steps{i}");
+        let chans = if c.4 { 2 } else { 1 };
+        let want = |ch: usize, f: usize| -> i16 {
+            let (sf, lv) = if ch == 0 { (c.0, c.1) } else { (c.2, c.3) };
+            if f < sf { lv[0] } else { lv[1] }
+        };
+        let mut d = vec![];
+        for f in 0..FRAMES {
+            for ch in 0..chans {
+                d.extend_from_slice(&want(ch, f).to_le_bytes());
+            }
+        }
+        let m = if c.4 { 0x80u8 } else { 0x40 };
+        let Ok(out) = compress(&d, m) else {
+            r.err_return = true;
+            return r;
+        };
+        r.nontrivial = true;
+        if out == d {
+            r.outcome = "raw".into();
+            return r;
+        }
+        r.outcome = "compressed".into();
+        match decompress(&out[1..], m, d.len()) {
+            Ok(back) => {
+                if back.len() != d.len() {
+                    r.viol("adpcm steps: length not preserved", format!("{} vs {}", back.len(), d.len()));
+                    return r;
+                }
+                // judged on the last 32 frames, at least 90 frames after the last step: within 12.5 % of full scale
+                for ch in 0..chans {
+                    let mut worst = 0i32;
+                    for f in FRAMES - 32..FRAMES {
+                        let o = (f * chans + ch) * 2;
+                        let got = i16::from_le_bytes([back[o], back[o + 1]]) as i32;
+                        worst = worst.max((got - want(ch, f) as i32).abs());
+                    }
+                    if worst > 4096 {
+                        r.viol(
+                            format!("adpcm steps: a {} channel does not settle on its own level (channel interleaving lost)", if c.4 { "stereo" } else { "mono" }),
+                            format!("channel {ch}: target {} worst deviation {worst} in the last 32 frames", want(ch, FRAMES - 1)),
+                        );
+                    }
+                }
+            }
+            Err(e) => r.viol("adpcm steps: decompress rejects the compressor's own output", format!("{e}")),
+        }
+        r
+    }
+}
+
 fn build(name: &str, _arg: &str, tier: Tier) -> Box<dyn Space> {
     match name {
+        "adpcm_steps" => Box::new(AdpcmSteps::new(tier)),
         "main" => Box::new(Main { inputs: inputs(tier), sels: named_sels() }),
         "allsel" => Box::new(Main { inputs: inputs(Tier::Quick), sels: all_sels() }),
         "adpcm" => Box::new(Adpcm),
@@ -274,9 +366,10 @@ fn main() {
     let Mode::Supervisor(mut c) = start("C03", "exploration", build) else { return };
     c.rule = "selectors x inputs; inputs = all strings of length <=3 over {00,01,7F,80,81,FF}, all of length 4..8 over {00,FF}, run families a^n, a^n b, (ab)^n, a^n b^m for n,m in {0..5,126..131,254..258} x 3 letter pairs, size ladder {0..17, 2^k-1,2^k,2^k+1 for k=5..K} x 5 textures (K=17 quick; thorough: all6 to length 5, {00,FF} to length 14, all strings of length 6..9 over {00,41,FF}, run counts {0..8,62..66,126..135,254..264,510..514,1022..1026,4094..4098}, break-even sweeps (every split k of a k-byte incompressible prefix + compressible tail) for totals {33,64,86,100,128,200,256,300,512,1000,1024,4096} with zero tails and {86,128,300,512,1024} with period2/sparse/period251 tails, EVERY length 0..1100 x 5 textures, K=23); thorough also runs space `allsel`: every one of the 256 method bytes x the quick input set (a selector the compressor accepts must invert; selectors with an ADPCM bit are judged for length only). Non-trivial = non-empty input accepted by the compressor; distinct by (selector,input).".into();
     c.assume("a compressor refusing a selector/input with Err is a legitimate refusal (counted)");
-    c.assume("lossy ADPCM selectors: only length and channel sides are judged");
+    c.assume("lossy ADPCM selectors: only length and channel sides are judged; space adpcm_steps: every pair of per-channel step signals (6 level pairs x step frames) as stereo, and each alone as mono: 90+ frames after the last step every channel must be within 1/8 of full scale of its own level");
     c.run_space("main", "");
     c.run_space("adpcm", "");
+    c.run_space("adpcm_steps", "");
     if c.tier == Tier::Thorough {
         c.run_space("allsel", "");
     }
